@@ -745,6 +745,43 @@ example : run .plain (some ⟨.insert, 1, .raise⟩) none = ⟨.ret 70, some (so
     ∧ run .plain (some ⟨.complete, 0, .raise⟩) none = ⟨.ret 0, some none, true, true, true⟩
     ∧ run .plain (some ⟨.disconnect, 7, .raise⟩) (some (.sysExit 4)) = ⟨.ret 4, some (some 4), true, true, false⟩ := by decide
 
+/-! ### contention on the database file (another writer holds the write lock for a while) -/
+
+/-- Contention that ends before the connection's busy timeout is invisible: for ANY phase, duration, timeout, command kind and
+    ending of the command the run is the undisturbed one. -/
+theorem short_contention_invisible (timeout : Nat) (k : Kind) (c : Contention) (body : Option Exc) (h : c.hold < timeout) :
+    runC timeout k c body = run k none body := by
+  simp [runC, contentionFault, h, dbfault_none_refines]
+
+/-- ... so with the documented timeout every demand of the property is met and the run entry is completed with the code. -/
+theorem short_contention_consistent (k : Kind) (c : Contention) (body : Option Exc) (h : c.hold < BUSY_TIMEOUT_MS) :
+    violationsC k c body (runC BUSY_TIMEOUT_MS k c body) = []
+    ∧ (runC BUSY_TIMEOUT_MS k c body).row = some (some (mapExit {} k body).1) := by
+  have hm : (mapExit {} k body).2 = false := by
+    unfold mapExit
+    split
+    · rfl
+    · rename_i e; cases e <;> rfl
+  rw [short_contention_invisible _ k c body h, dbfault_none_refines]
+  simp [violationsC, h, DbFault.violations, allowed, hm]
+
+/-- The timeout matters: a connection that waits less than the other writer holds the lock loses the end of the run when the
+    contention meets complete_run_meta - whatever the kind and the ending (the run entry stays without end time / exit code). -/
+theorem long_contention_loses_the_record (timeout : Nat) (k : Kind) (hold : Nat) (body : Option Exc)
+    (h1 : timeout ≤ hold) (h2 : hold < BUSY_TIMEOUT_MS) :
+    (runC timeout k ⟨.complete, hold⟩ body).row = some none
+    ∧ "db-unfinished" ∈ violationsC k ⟨.complete, hold⟩ body (runC timeout k ⟨.complete, hold⟩ body) := by
+  have h : ¬ hold < timeout := by omega
+  simp [runC, contentionFault, h, h2, firstLock, Phase.call, stmts, Stmt.locks, violationsC, DbFault.violations, run, tryDb, call,
+        faultOf, runStmts, Stmt.awaited, Db.apply, Db.close, rowDemanded]
+
+-- non-vacuity: 1.5 s of contention at the end of a run that exits with 3: invisible with 10 s of patience, fatal with 10 ms
+example : runC BUSY_TIMEOUT_MS .plain ⟨.complete, 1500⟩ (some (.sysExit 3)) = ⟨.ret 3, some (some 3), true, true, false⟩
+    ∧ runC 10 .plain ⟨.complete, 1500⟩ (some (.sysExit 3)) = ⟨.ret 3, some none, true, true, false⟩
+    ∧ runC 10 .uds ⟨.insert, 300⟩ (some (.sysExit 3)) = ⟨.ret 70, none, true, true, false⟩
+    ∧ runC 0 .scanner ⟨.disconnect, 1500⟩ none = ⟨.ret 0, some (some 0), true, true, false⟩
+    ∧ violationsC .uds ⟨.insert, 300⟩ (some (.sysExit 3)) (runC 10 .uds ⟨.insert, 300⟩ (some (.sysExit 3))) = ["exit-code"] := by decide
+
 end DbFaults
 
 end Gallia.C15
